@@ -80,7 +80,7 @@ func (r *run) judgeSuccessDespiteFault(o outcome, cancels []cancelEv, panics []p
 			}
 			// no-output flavour: see DESIGN §7.1 / findings — counted, judged by obs only
 			r.c.Obs("no_output_or_nil_after_ctx_ended_before_reducer_return", 1)
-			if p.Ctx == ctxPre {
+			if p.ctxBeforeCall() {
 				// no concurrency to argue with: the context had ended before the call was even made
 				r.c.Obs("no_output_or_nil_with_ctx_cancelled_before_the_call", 1)
 				r.viol("C10/outcome/success-after-ctx-ended/no-output/ctx-cancelled-before-the-call",
